@@ -90,12 +90,15 @@ type Op struct {
 }
 
 type Case struct {
-	Kind       string      `json:"kind"`    // route, noroute, nomethod, redirect, options
-	Install    string      `json:"install"` // global, for-all, for-kind, for-others, route
-	Recovery   bool        `json:"recovery,omitempty"`
-	IgnoreTS   bool        `json:"ignore_ts,omitempty"`
-	ReaderFrom bool        `json:"reader_from,omitempty"`
-	Flusher    string      `json:"flusher,omitempty"` // how the underlying writer can flush: "" (not at all), "flush", "flusherror", "both"
+	Kind       string `json:"kind"`    // route, noroute, nomethod, redirect, options
+	Install    string `json:"install"` // global, for-all, for-kind, for-others, route
+	Recovery   bool   `json:"recovery,omitempty"`
+	IgnoreTS   bool   `json:"ignore_ts,omitempty"`
+	ReaderFrom bool   `json:"reader_from,omitempty"`
+	Flusher    string `json:"flusher,omitempty"` // how the underlying writer can flush: "" (not at all), "flush", "flusherror", "both"
+	// Prior: the same handler (same method, host and path) first serves another request, which it answers 302 with a Location
+	// header and for which every configured resolver succeeds with 203.0.113.250; the judged request comes second.
+	Prior      bool        `json:"prior,omitempty"`
 	Global     ResolverCfg `json:"global_resolver"`
 	Route      ResolverCfg `json:"route_resolver"`
 	Method     string      `json:"method"`
@@ -303,6 +306,21 @@ func mkResolver(rc ResolverCfg) fox.ClientIPResolver {
 	return nil
 }
 
+const priorHeader = "X-C20-Prior"
+
+// priorAware makes a resolver succeed for the prior request, whatever it does for the judged one.
+func priorAware(res fox.ClientIPResolver) fox.ClientIPResolver {
+	if res == nil {
+		return nil
+	}
+	return fox.ClientIPResolverFunc(func(c fox.Context) (*net.IPAddr, error) {
+		if c.Request().Header.Get(priorHeader) != "" {
+			return &net.IPAddr{IP: net.ParseIP("203.0.113.250")}, nil
+		}
+		return res.ClientIP(c)
+	})
+}
+
 func (r *run) play(c fox.Context, script []Op) {
 	for _, op := range script {
 		switch op.Op {
@@ -380,7 +398,14 @@ func wraps(c *Case) bool { return c.Install != "for-others" }
 // serve builds a fresh router for the case (with or without the Logger) and serves the request once.
 func serve(c *Case, withLogger bool) (*run, error) {
 	r := &run{errVal: errors.New("c20: error value passing through"), w: &under{h: http.Header{}}}
-	script := func(fc fox.Context) { r.play(fc, c.Script) }
+	script := func(fc fox.Context) {
+		if fc.Request().Header.Get(priorHeader) != "" {
+			fc.Writer().Header().Set("Location", "/c20-prior-location")
+			fc.Writer().WriteHeader(http.StatusFound)
+			return
+		}
+		r.play(fc, c.Script)
+	}
 	probe := func(next fox.HandlerFunc) fox.HandlerFunc {
 		return func(fc fox.Context) {
 			r.hits++
@@ -415,7 +440,7 @@ func serve(c *Case, withLogger bool) (*run, error) {
 		})))
 	}
 	if c.Global.Mode != "none" {
-		opts = append(opts, fox.WithClientIPResolver(mkResolver(c.Global)))
+		opts = append(opts, fox.WithClientIPResolver(priorAware(mkResolver(c.Global))))
 	}
 	var ropts []fox.RouteOption
 	if c.Install == "route" {
@@ -470,7 +495,7 @@ func serve(c *Case, withLogger bool) (*run, error) {
 		return nil, err
 	}
 	if c.Route.Mode != "inherit" {
-		ropts = append(ropts, fox.WithClientIPResolver(mkResolver(c.Route)))
+		ropts = append(ropts, fox.WithClientIPResolver(priorAware(mkResolver(c.Route))))
 	}
 	if c.IgnoreTS && c.Kind == "route" {
 		ropts = append(ropts, fox.WithIgnoreTrailingSlash(true))
@@ -499,6 +524,19 @@ func serve(c *Case, withLogger bool) (*run, error) {
 				f.ServeHTTP(httptest.NewRecorder(), httptest.NewRequest(http.MethodGet, "http://decoy.test"+p, nil))
 			}()
 		}
+		fresh := &run{errVal: r.errVal, w: r.w}
+		*r = *fresh
+	}
+	if c.Prior {
+		func() {
+			defer func() { _ = recover() }()
+			preq := &http.Request{
+				Method: c.Method, URL: &url.URL{Scheme: "http", Host: "placeholder", Path: c.Path, RawQuery: c.Query},
+				Proto: "HTTP/1.1", ProtoMajor: 1, ProtoMinor: 1, Header: http.Header{priorHeader: {"1"}}, Host: c.Host,
+				RemoteAddr: "198.51.100.77:4000", RequestURI: c.Path, Body: http.NoBody,
+			}
+			f.ServeHTTP(httptest.NewRecorder(), preq)
+		}()
 		fresh := &run{errVal: r.errVal, w: r.w}
 		*r = *fresh
 	}
@@ -807,6 +845,13 @@ func check(c *Case, count bool) error {
 			stats.Excluded("final status outside 200..599: level not judged")
 		}
 	}
+	if judgeStatus && status/100 != 3 {
+		// whether a non-3xx record may mention the response's own Location header is not stated; a location the response does
+		// not have is not "the response status actually recorded ... together with the Location header" of anything
+		if v, has := rec.attrs["location"]; has && attrString(v) != got.w.headers().Get("Location") {
+			return fmt.Errorf("%sstatus %d, response Location header %q: the record carries location = %q, which this response does not have", desc(), status, got.w.headers().Get("Location"), attrString(v))
+		}
+	}
 
 	// ---- message
 	switch eff.Mode {
@@ -990,6 +1035,7 @@ func genCase(t *rapid.T) *Case {
 	c.Recovery = gen.Chance(t, 1, 4, "recovery")
 	c.ReaderFrom = rapid.Bool().Draw(t, "readerFrom")
 	c.Flusher = gen.Pick(t, []string{"", "flush", "flusherror", "both"}, "flusher")
+	c.Prior = gen.Chance(t, 1, 2, "prior")
 	gi := gen.U(t, len(ipPool), "globalIP")
 	ri := (gi + 1 + gen.U(t, len(ipPool)-1, "routeIP")) % len(ipPool)
 	c.Global = genResolver(t, []string{"none", "none", "nil", "ok", "ok", "ok", "fail", "fail"}, gi, "globalResolver")
@@ -1094,6 +1140,7 @@ func TestSweep(t *testing.T) {
 				}
 				c.Script = append(c.Script, Op{Op: "wh", Code: status})
 				c.Flusher = []string{"", "flush", "flusherror", "both"}[(status+ki+ri)%4]
+				c.Prior = (status+ri)%3 == 0
 				if (status+ki)%5 == 0 {
 					c.Script = append(c.Script, Op{Op: "flush", Mode: []string{"flush", "flusherror"}[ri%2]})
 				}
